@@ -59,6 +59,7 @@ func (o OVal) String() string {
 
 // Outcome of running a chunk.
 type Outcome struct {
+	Lines   []string // debugging aid: position of each emit call (not compared)
 	Trace   [][]OVal
 	Ok      bool
 	Results []OVal
@@ -97,7 +98,11 @@ func (o *Outcome) Summary() map[string]any {
 		for j, v := range t {
 			parts[j] = v.String()
 		}
-		tr = append(tr, strings.Join(parts, " "))
+		ln := ""
+		if i < len(o.Lines) {
+			ln = "@" + strings.TrimSuffix(strings.TrimPrefix(o.Lines[i], "<string>:"), ":") + " "
+		}
+		tr = append(tr, ln+strings.Join(parts, " "))
 	}
 	m := map[string]any{"trace": tr, "ok": o.Ok}
 	if o.Ok {
@@ -230,6 +235,7 @@ func Run(src string, ro *RunOptions) (out *Outcome) {
 			row[i-1] = c.val(L.Get(i))
 		}
 		out.Trace = append(out.Trace, row)
+		out.Lines = append(out.Lines, L.Where(1))
 		return 0
 	}))
 	L.SetGlobal("newud", L.NewFunction(func(L *lua.LState) int {
